@@ -403,6 +403,15 @@ def _stage_near_kink(b, spec, twin, Xd, Cd):
 
 
 def run_case(case):
+    old = zoo.COMPOSITECDF_MARGIN[0]
+    zoo.COMPOSITECDF_MARGIN[0] = 1e-2
+    try:
+        return _run_case(case)
+    finally:
+        zoo.COMPOSITECDF_MARGIN[0] = old
+
+
+def _run_case(case):
     res = CaseResult()
     if case.get("stat"):
         with dtype_mode(False):
